@@ -374,7 +374,7 @@ func ruleR2(p *Prog) []Ob {
 				if !canReach(rn, rm) && !canReach(rm, rn) {
 					continue
 				}
-				ob := Ob{Rule: "R2", Inst: fmt.Sprintf("O3:%s:remove#%d-after-rename", funcLabel(fn), i+1), Props: []string{"C05", "C01"}, Pos: p.at(rm), Func: funcLabel(fn), Nontrivial: true}
+				ob := Ob{Rule: "R2", Inst: fmt.Sprintf("O3:%s:remove#%d-after-rename", funcLabel(fn), i+1), Props: []string{"C05", "C01", "C06"}, Pos: p.at(rm), Func: funcLabel(fn), Nontrivial: true}
 				if p.precedesOK(ea, rn, rm) {
 					ob.Status, ob.Msg = Discharged, "the rewritten segment is renamed into place (and that succeeded) before the original is removed"
 					ob.Guards = []string{p.at(rn)}
@@ -385,7 +385,7 @@ func ruleR2(p *Prog) []Ob {
 			}
 			// O4 (head only)
 			if owner == "HeadWriter" {
-				ob := Ob{Rule: "R2", Inst: fmt.Sprintf("O4:%s:remove#%d-head", funcLabel(fn), i+1), Props: []string{"C05", "C02"}, Pos: p.at(rm), Func: funcLabel(fn), Nontrivial: true}
+				ob := Ob{Rule: "R2", Inst: fmt.Sprintf("O4:%s:remove#%d-head", funcLabel(fn), i+1), Props: []string{"C05", "C02", "C06"}, Pos: p.at(rm), Func: funcLabel(fn), Nontrivial: true}
 				ok := false
 				for _, rn := range renames {
 					if p.precedesOK(ea, rn, rm) {
